@@ -59,6 +59,18 @@ WriteChanges(p) == \E r \in Reqs(ws[p].d), h \in {"none", "match", "stale"} :
 MetaReqs(d) == {r \in Reqs(d) : IsMetaKey(r.key)}
 WriteMutated(p) == \E c \in Contents : \E m \in MetaReqs(c) :
   Step("write_mutated", p, [NoArg EXCEPT !.lines = Render(c), !.final = c.g.final, !.req = m], TRUE, [ws EXCEPT ![p] = File(Apply1(c, m))])
+(* `octave write FILE --content TEXT [--base-hash H]`, `octave write FILE --changes JSON [--base-hash H]`: the CLI twins of the two  *)
+(* write modes - another process, the same files, the same rules                                                                        *)
+CliWriteContent(p) == \E c \in Contents, h \in {"none", "match", "stale"} :
+  /\ h # "none" => ws[p].st = "file"
+  /\ LET arg == [NoArg EXCEPT !.lines = Render(c), !.final = c.g.final, !.hash = h] IN
+     IF h = "stale" THEN Step("cli_write", p, arg, FALSE, ws)
+     ELSE Step("cli_write", p, arg, TRUE, [ws EXCEPT ![p] = File(c)])
+CliWriteChanges(p) == \E r \in Reqs(ws[p].d), h \in {"none", "match", "stale"} :
+  /\ ws[p].st = "file"
+  /\ LET arg == [NoArg EXCEPT !.req = r, !.hash = h] IN
+     IF h = "stale" THEN Step("cli_amend", p, arg, FALSE, ws)
+     ELSE Step("cli_amend", p, arg, TRUE, [ws EXCEPT ![p].d = Apply1(@, r)])
 (* a preview of an amendment (changes + corrections_only): nothing moves, now or later *)
 DryChanges(p) == \E r \in Reqs(ws[p].d) : ws[p].st = "file" /\ Step("dry_amend", p, [NoArg EXCEPT !.req = r], TRUE, ws)
 (* dry run: corrections_only *)
@@ -66,6 +78,10 @@ DryRun(p) == \E c \in Contents : Step("dry", p, [NoArg EXCEPT !.lines = Render(c
 (* readers: the file is an argument, never a result *)
 Validate(p) == ws[p].st = "file" /\ Step("validate", p, NoArg, TRUE, ws)
 Eject(p) == ws[p].st = "file" /\ Step("eject", p, NoArg, TRUE, ws)
+(* octave_validate(file_path, fix=true) shows repairs, it never stores them; `octave validate f --verify-seal` exits 1 exactly when *)
+(* the file carries a seal made on other content                                                                                    *)
+ValidateFix(p) == ws[p].st = "file" /\ Step("validate_fix", p, NoArg, TRUE, ws)
+CliVerifySeal(p) == ws[p].st = "file" /\ Step("cli_verify", p, NoArg, SealStatus(ws[p]) # "INVALID", ws)
 (* `octave seal f -o f`, `octave normalize f -o f` *)
 SealFile(p) == ws[p].st = "file" /\ Step("seal", p, NoArg, TRUE, [ws EXCEPT ![p].sealed = TRUE, ![p].sd = ws[p].d])
 Normalize(p) == ws[p].st = "file" /\ Step("normalize", p, NoArg, TRUE, ws)
@@ -77,12 +93,14 @@ SInit == Init /\ reqs = <<>> /\ ws = [p \in Paths |-> Gone] /\ log = <<>>
 SGrow == log = <<>> /\ AddItem /\ UNCHANGED <<reqs, ws, log>>
 Serve == /\ Len(log) < MaxSteps /\ (doc.body # <<>> \/ doc.meta # <<>>)
          /\ \E p \in Paths : WriteContent(p) \/ WriteChanges(p) \/ WriteMutated(p) \/ DryChanges(p) \/ DryRun(p) \/ Validate(p) \/ Eject(p) \/ SealFile(p)
-                             \/ Normalize(p) \/ Edit(p) \/ Remove(p)
+                             \/ Normalize(p) \/ Edit(p) \/ Remove(p) \/ CliWriteContent(p) \/ CliWriteChanges(p) \/ ValidateFix(p) \/ CliVerifySeal(p)
 SNext == SGrow \/ Serve
 
 EmitLife == IF Len(log) = MaxSteps THEN PrintT(ToJson([doc |-> doc, log |-> log])) ELSE TRUE
 
 (* in-model: a refused or reading step leaves the workspace as it was; a seal never verifies on other content *)
-RefusedChangesNothing == \A i \in DOMAIN log : (~log[i].ok /\ i > 1) => log[i].holds = log[i - 1].holds
+RefusedChangesNothing == \A i \in DOMAIN log : (~log[i].ok /\ i > 1) => log[i].holds = log[i - 1].holds /\ log[i].seal = log[i - 1].seal
+ReadersChangeNothing == \A i \in DOMAIN log : (i > 1 /\ log[i].act \in {"validate", "validate_fix", "cli_verify", "eject", "dry", "dry_amend"})
+                                                  => log[i].holds = log[i - 1].holds /\ log[i].seal = log[i - 1].seal
 SealFollowsContent == \A p \in Paths : ws[p].sealed /\ AbsDoc(ws[p].d) # AbsDoc(ws[p].sd) => SealStatus(ws[p]) = "INVALID"
 =============================================================================
